@@ -433,13 +433,17 @@ Proof.
   - intros H; inversion H; subst. apply same_addr_eq in E. subst. left. reflexivity.
   - intros H. right. apply IH. exact H.
 Qed.
-Lemma chan_scan_hit s from b ch peer rl d : rdw b 0 = Ok ch -> rdw b 2 = Ok rl -> rd_range b 4 (Z.min (blen b) rl) = Ok d ->
+Lemma chan_scan_hit s from b ch peer rl d : 4 <= blen b -> rdw b 0 = Ok ch -> rdw b 2 = Ok rl -> rl <= blen b - 4 ->
+  rd_range b 4 (Z.min (blen b) rl) = Ok d ->
   forall l, chan_peer (map (fun x => (b_chan x, b_peer x)) l) ch = Some peer ->
   chan_scan s from b l = Ok (s, [], RxData {| h_data := d; h_from := peer; h_sock := true |}).
 Proof.
-  intros H0 H2 Hd. induction l as [|bd l IH]; [discriminate|]. cbn [map chan_peer chan_scan]. rewrite H0. cbn [bind].
+  intros H4 H0 H2 Hrl Hd. induction l as [|bd l IH]; [discriminate|]. cbn [map chan_peer chan_scan].
+  replace (4 <=? blen b) with true by (symmetry; apply Z.leb_le; exact H4).
+  rewrite H0. cbn [bind].
   destruct (b_chan bd =? ch) eqn:E.
-  - intros H; inversion H; subst. rewrite H2. cbn [bind]. rewrite Hd. reflexivity.
+  - intros H; inversion H; subst. rewrite H2. cbn [bind].
+    replace (rl <=? blen b - 4) with true by (symmetry; apply Z.leb_le; exact Hrl). rewrite Hd. reflexivity.
   - exact IH.
 Qed.
 
@@ -474,7 +478,7 @@ Proof.
     symmetry. apply Z.ltb_lt. rewrite Z.div_div by lia. assert (1 <= b_chan bd / (256 * 64)) by (apply Z.div_le_lower_bound; lia). lia. }
   unfold recv. rewrite addr_eqb_refl. cbn [negb]. rewrite Hval. cbn [bind].
   unfold recv_tail. cbn [cf set_ids]. rewrite Hrfc. cbn [channels set_ids].
-  rewrite (chan_scan_hit _ _ b (b_chan bd) (b_peer bd) (blen p) p H0 H2 Hd (channels s) Hlook).
+  rewrite (chan_scan_hit _ _ b (b_chan bd) (b_peer bd) (blen p) p ltac:(lia) H0 H2 ltac:(lia) Hd (channels s) Hlook).
   eexists _, _. reflexivity.
 Qed.
 
